@@ -28,10 +28,10 @@ REQUIRED = [
     "leaf_codec_roundtrip", "leaf_codec_rejects", "load_bytes_refines", "load_bytes_error_unchanged", "persist_keeps_sorted",
     "load_state_through_bytes", "clock_keys_order", "clock_shelf_cursor_order", "leaf_keys_not_ordered", "metadata_getters_refine",
     "metadata_getters_fallback", "tree_inv_delete", "delete_undoes_insert", "xor_iblt_delete_lawful", "drop_leaves_spec",
-    "drop_leaves_observables", "fact_tree_api", "new_iblt_buckets", "persist_full_eq_persist",
+    "drop_leaves_observables", "fact_tree_api", "new_iblt_buckets", "persist_full_eq_persist", "metric_tracks_stored_set",
 ]
 
-STATELESS = ("tcx", "tci", "tcm", "tca", "tnb", "ckey", "kclk", "phl", "mget")
+STATELESS = ("tcx", "tci", "tcm", "tca", "tnb", "ckey", "kclk", "phl", "mget")  # replayed alone
 
 
 def codec_oracle(op, line):
@@ -105,7 +105,7 @@ def codec_oracle(op, line):
             want = f"tca ok:[{fmt(s)}]"
         return None if line == want else f"want {want[:120]}"
     if o == "raw":
-        m = re.match(r"raw clk=(\S+) meta=(\S+) x=\[(.*)\] i=\[(.*)\]$", line)
+        m = re.match(r"raw clk=(\S+) meta=(\S+) x=\[(.*)\] i=\[(.*)\] metric=\d+$", line)
         if not m:
             return "unparsable raw line"
         clk, meta, xs, is_ = m.groups()
